@@ -134,184 +134,7 @@ func runContainerIdx(c *Ctx, r *Reporter, rel string) {
 			continue
 		}
 		for _, fn := range withAnon(sf) {
-			// dominating facts: len(K1) == len(K2) on an edge
-			type lenEq struct {
-				b    *ssa.BasicBlock
-				idx  int
-				a, c string
-			}
-			var eqs []lenEq
-			for _, b := range fn.Blocks {
-				if len(b.Instrs) == 0 {
-					continue
-				}
-				ifi, ok := b.Instrs[len(b.Instrs)-1].(*ssa.If)
-				if !ok {
-					continue
-				}
-				bo, ok := ifi.Cond.(*ssa.BinOp)
-				if !ok || (bo.Op != token.EQL && bo.Op != token.NEQ) {
-					continue
-				}
-				la, oka := isLenOf(bo.X)
-				lb, okb := isLenOf(bo.Y)
-				if oka && okb {
-					e := 0
-					if bo.Op == token.NEQ {
-						e = 1
-					}
-					eqs = append(eqs, lenEq{b, e, ci.key(la, 0), ci.key(lb, 0)})
-				}
-			}
-			bounded := func(idx ssa.Value, storage ssa.Value, at *ssa.BasicBlock, upperInclusive bool) (bool, string) {
-				skey := ci.key(storage, 0)
-				sameStore := func(k ssa.Value) bool {
-					kk := ci.key(k, 0)
-					if kk == skey {
-						return true
-					}
-					for _, e := range eqs {
-						if edgeDominates(e.b, e.idx, at) && ((e.a == kk && e.c == skey) || (e.c == kk && e.a == skey)) {
-							return true
-						}
-					}
-					return false
-				}
-				// the length the storage was made with (arr := arrayVal{Elements: make([]value, n)})
-				var madeLen ssa.Value
-				if ms, isMake := storage.(*ssa.MakeSlice); isMake {
-					madeLen = ms.Len
-				}
-				for _, b2 := range fn.Blocks {
-					for _, ins2 := range b2.Instrs {
-						if st, isSt := ins2.(*ssa.Store); isSt {
-							if ms, isMake := st.Val.(*ssa.MakeSlice); isMake && ("*"+ci.key(st.Addr, 0)) == skey {
-								madeLen = ms.Len
-							}
-						}
-					}
-				}
-				isLenLike := func(v ssa.Value) bool {
-					if l, isLen := isLenOf(v); isLen && sameStore(l) {
-						return true
-					}
-					return madeLen != nil && v == madeLen
-				}
-				var ok func(v ssa.Value, depth int) bool
-				var okIncl func(v ssa.Value, depth int, incl bool) bool
-				okStrict := func(v ssa.Value, depth int) bool { return okIncl(v, depth, false) }
-				ok = func(v ssa.Value, depth int) bool { return okIncl(v, depth, upperInclusive) }
-				okIncl = func(v ssa.Value, depth int, upperInclusive bool) bool {
-					if depth > 5 {
-						return false
-					}
-					if _, isConst := v.(*ssa.Const); isConst {
-						k, _ := intConst(v)
-						return k == 0 || upperInclusive
-					}
-					if upperInclusive && isLenLike(v) {
-						return true
-					}
-					// a counter that starts at len-1 and only decreases: phi [len-1, phi-1]
-					if phi, isPhi := v.(*ssa.Phi); isPhi {
-						desc := len(phi.Edges) > 0
-						for _, e := range phi.Edges {
-							bo, isBo := e.(*ssa.BinOp)
-							if !isBo || bo.Op != token.SUB {
-								desc = false
-								break
-							}
-							if k, isK := intConst(bo.Y); !isK || k != 1 {
-								desc = false
-								break
-							}
-							if bo.X != ssa.Value(phi) && !isLenLike(bo.X) {
-								desc = false
-								break
-							}
-						}
-						if desc {
-							return true
-						}
-					}
-					switch x := v.(type) {
-					case *ssa.Extract:
-						if call, isCall := x.Tuple.(*ssa.Call); isCall {
-							if sc := call.Call.StaticCallee(); sc != nil && (sc.Name() == "normalizeIndex" || sc.Name() == "normalizeSliceIndices") {
-								if sc.Name() == "normalizeSliceIndices" && !upperInclusive {
-									return false // a slice bound may equal the length
-								}
-								for _, a := range call.Call.Args {
-									if isLenLike(a) {
-										return true
-									}
-								}
-							}
-						}
-					case *ssa.BinOp:
-						// i+1 / i-1 as a slice end or neighbour of a bounded index
-						if (x.Op == token.ADD || x.Op == token.SUB) && upperInclusive {
-							if k, isK := intConst(x.Y); isK && k == 1 && okStrict(x.X, depth+1) {
-								return true
-							}
-						}
-					case *ssa.Phi:
-						// fall through to the dominating test
-					}
-					// a dominating test v < len(K)
-					for d := at; d != nil; d = d.Idom() {
-						idom := d.Idom()
-						if idom == nil || len(idom.Instrs) == 0 {
-							continue
-						}
-						ifi, isIf := idom.Instrs[len(idom.Instrs)-1].(*ssa.If)
-						if !isIf {
-							continue
-						}
-						bo, isBo := ifi.Cond.(*ssa.BinOp)
-						if !isBo {
-							continue
-						}
-						edge := -1
-						var bound ssa.Value
-						same := func(a ssa.Value) bool { return a == v || ci.key(a, 0) == ci.key(v, 0) }
-						strict := true
-						switch {
-						case bo.Op == token.LSS && same(bo.X):
-							edge, bound = 0, bo.Y
-						case bo.Op == token.GEQ && same(bo.X):
-							edge, bound = 1, bo.Y
-						case bo.Op == token.GTR && same(bo.Y):
-							edge, bound = 0, bo.X
-						case bo.Op == token.LEQ && same(bo.Y):
-							edge, bound = 1, bo.X
-						case bo.Op == token.LEQ && same(bo.X):
-							edge, bound, strict = 0, bo.Y, false
-						case bo.Op == token.GTR && same(bo.X):
-							edge, bound, strict = 1, bo.Y, false
-						}
-						if edge < 0 || !edgeDominates(idom, edge, at) {
-							continue
-						}
-						if !strict && !upperInclusive {
-							// v <= bound: fine only when bound itself is a strict index
-							if okIncl(bound, depth+1, false) {
-								return true
-							}
-							continue
-						}
-						// v < bound (or v <= bound for an inclusive position): bound may be the length, or anything that is ≤ the length
-						if okIncl(bound, depth+1, true) {
-							return true
-						}
-					}
-					return false
-				}
-				if ok(idx, 0) {
-					return true, ""
-				}
-				return false, idx.String()
-			}
+			bounded := ci.mkBounded(fn, "", 0)
 			for _, b := range fn.Blocks {
 				for _, ins := range b.Instrs {
 					var storage ssa.Value
@@ -352,4 +175,275 @@ func runContainerIdx(c *Ctx, r *Reporter, rel string) {
 			}
 		}
 	}
+}
+
+// mkBounded returns the bound check for the indices of one function. With a key override the check is made against the
+// storage with that canonical key (used for the results of helpers, where the caller's storage is named through the
+// helper's parameters).
+func (ci *cidx) mkBounded(fn *ssa.Function, keyOverride string, level int) func(idx ssa.Value, storage ssa.Value, at *ssa.BasicBlock, upperInclusive bool) (bool, string) {
+	// dominating facts: len(K1) == len(K2) on an edge
+	type lenEq struct {
+		b    *ssa.BasicBlock
+		idx  int
+		a, c string
+	}
+	var eqs []lenEq
+	for _, b := range fn.Blocks {
+		if len(b.Instrs) == 0 {
+			continue
+		}
+		ifi, ok := b.Instrs[len(b.Instrs)-1].(*ssa.If)
+		if !ok {
+			continue
+		}
+		bo, ok := ifi.Cond.(*ssa.BinOp)
+		if !ok || (bo.Op != token.EQL && bo.Op != token.NEQ) {
+			continue
+		}
+		la, oka := isLenOf(bo.X)
+		lb, okb := isLenOf(bo.Y)
+		if oka && okb {
+			e := 0
+			if bo.Op == token.NEQ {
+				e = 1
+			}
+			eqs = append(eqs, lenEq{b, e, ci.key(la, 0), ci.key(lb, 0)})
+		}
+	}
+	bounded := func(idx ssa.Value, storage ssa.Value, at *ssa.BasicBlock, upperInclusive bool) (bool, string) {
+		skey := ci.key(storage, 0)
+		if keyOverride != "" {
+			skey = keyOverride
+		}
+		sameStore := func(k ssa.Value) bool {
+			kk := ci.key(k, 0)
+			if kk == skey {
+				return true
+			}
+			for _, e := range eqs {
+				if edgeDominates(e.b, e.idx, at) && ((e.a == kk && e.c == skey) || (e.c == kk && e.a == skey)) {
+					return true
+				}
+			}
+			return false
+		}
+		// the length the storage was made with (arr := arrayVal{Elements: make([]value, n)})
+		var madeLen ssa.Value
+		if ms, isMake := storage.(*ssa.MakeSlice); isMake {
+			madeLen = ms.Len
+		}
+		for _, b2 := range fn.Blocks {
+			for _, ins2 := range b2.Instrs {
+				if st, isSt := ins2.(*ssa.Store); isSt {
+					if ms, isMake := st.Val.(*ssa.MakeSlice); isMake && ("*"+ci.key(st.Addr, 0)) == skey {
+						madeLen = ms.Len
+					}
+				}
+			}
+		}
+		isLenLike := func(v ssa.Value) bool {
+			if l, isLen := isLenOf(v); isLen && sameStore(l) {
+				return true
+			}
+			return madeLen != nil && v == madeLen
+		}
+		var ok func(v ssa.Value, depth int) bool
+		var okIncl func(v ssa.Value, depth int, incl bool) bool
+		okStrict := func(v ssa.Value, depth int) bool { return okIncl(v, depth, false) }
+		ok = func(v ssa.Value, depth int) bool { return okIncl(v, depth, upperInclusive) }
+		okIncl = func(v ssa.Value, depth int, upperInclusive bool) bool {
+			if depth > 5 {
+				return false
+			}
+			if _, isConst := v.(*ssa.Const); isConst {
+				k, _ := intConst(v)
+				return k == 0 || upperInclusive
+			}
+			if upperInclusive && isLenLike(v) {
+				return true
+			}
+			// a counter that starts at len-1 and only decreases: phi [len-1, phi-1]
+			if phi, isPhi := v.(*ssa.Phi); isPhi {
+				desc := len(phi.Edges) > 0
+				for _, e := range phi.Edges {
+					bo, isBo := e.(*ssa.BinOp)
+					if !isBo || bo.Op != token.SUB {
+						desc = false
+						break
+					}
+					if k, isK := intConst(bo.Y); !isK || k != 1 {
+						desc = false
+						break
+					}
+					if bo.X != ssa.Value(phi) && !isLenLike(bo.X) {
+						desc = false
+						break
+					}
+				}
+				if desc {
+					return true
+				}
+			}
+			// the result of a helper of the package that returns a position in the storage it is handed
+			{
+				var hcall *ssa.Call
+				switch x := v.(type) {
+				case *ssa.Call:
+					hcall = x
+				case *ssa.Extract:
+					if c2, isCall := x.Tuple.(*ssa.Call); isCall && x.Index == 0 {
+						hcall = c2
+					}
+				}
+				if hcall != nil && level < 2 {
+					if h := hcall.Call.StaticCallee(); h != nil && h.Pkg == fn.Pkg && len(h.Blocks) > 0 && h.Name() != "normalizeIndex" && h.Name() != "normalizeSliceIndices" {
+						if ci.helperBounded(h, hcall, skey, at, v, upperInclusive, level) {
+							return true
+						}
+					}
+				}
+			}
+			switch x := v.(type) {
+			case *ssa.Extract:
+				if call, isCall := x.Tuple.(*ssa.Call); isCall {
+					if sc := call.Call.StaticCallee(); sc != nil && (sc.Name() == "normalizeIndex" || sc.Name() == "normalizeSliceIndices") {
+						if sc.Name() == "normalizeSliceIndices" && !upperInclusive {
+							return false // a slice bound may equal the length
+						}
+						for _, a := range call.Call.Args {
+							if isLenLike(a) {
+								return true
+							}
+						}
+					}
+				}
+			case *ssa.BinOp:
+				// i+1 / i-1 as a slice end or neighbour of a bounded index
+				if (x.Op == token.ADD || x.Op == token.SUB) && upperInclusive {
+					if k, isK := intConst(x.Y); isK && k == 1 && okStrict(x.X, depth+1) {
+						return true
+					}
+				}
+			case *ssa.Phi:
+				// fall through to the dominating test
+			}
+			// a dominating test v < len(K)
+			for d := at; d != nil; d = d.Idom() {
+				idom := d.Idom()
+				if idom == nil || len(idom.Instrs) == 0 {
+					continue
+				}
+				ifi, isIf := idom.Instrs[len(idom.Instrs)-1].(*ssa.If)
+				if !isIf {
+					continue
+				}
+				bo, isBo := ifi.Cond.(*ssa.BinOp)
+				if !isBo {
+					continue
+				}
+				edge := -1
+				var bound ssa.Value
+				same := func(a ssa.Value) bool { return a == v || ci.key(a, 0) == ci.key(v, 0) }
+				strict := true
+				switch {
+				case bo.Op == token.LSS && same(bo.X):
+					edge, bound = 0, bo.Y
+				case bo.Op == token.GEQ && same(bo.X):
+					edge, bound = 1, bo.Y
+				case bo.Op == token.GTR && same(bo.Y):
+					edge, bound = 0, bo.X
+				case bo.Op == token.LEQ && same(bo.Y):
+					edge, bound = 1, bo.X
+				case bo.Op == token.LEQ && same(bo.X):
+					edge, bound, strict = 0, bo.Y, false
+				case bo.Op == token.GTR && same(bo.X):
+					edge, bound, strict = 1, bo.Y, false
+				}
+				if edge < 0 || !edgeDominates(idom, edge, at) {
+					continue
+				}
+				if !strict && !upperInclusive {
+					// v <= bound: fine only when bound itself is a strict index
+					if okIncl(bound, depth+1, false) {
+						return true
+					}
+					continue
+				}
+				// v < bound (or v <= bound for an inclusive position): bound may be the length, or anything that is ≤ the length
+				if okIncl(bound, depth+1, true) {
+					return true
+				}
+			}
+			return false
+		}
+		if ok(idx, 0) {
+			return true, ""
+		}
+		return false, idx.String()
+	}
+	return bounded
+}
+
+// helperBounded: the call hands the helper h the storage with key skey (or an object it belongs to), and every value h
+// can return without an error is a position within that storage — or a negative constant (not found), provided the
+// caller has excluded a negative result on the way to the use.
+func (ci *cidx) helperBounded(h *ssa.Function, call *ssa.Call, skey string, at *ssa.BasicBlock, result ssa.Value, upperInclusive bool, level int) bool {
+	res := h.Signature.Results()
+	if res.Len() == 0 || res.Len() > 2 || !isIntType(res.At(0).Type()) {
+		return false
+	}
+	// the caller's storage in terms of the helper's parameters
+	hkey := ""
+	for i, prm := range h.Params {
+		if i >= len(call.Call.Args) {
+			break
+		}
+		ak := ci.key(call.Call.Args[i], 0)
+		if strings.Contains(skey, ak) {
+			hkey = strings.Replace(skey, ak, ci.key(prm, 0), 1)
+			break
+		}
+	}
+	if hkey == "" {
+		return false
+	}
+	hb := ci.mkBounded(h, hkey, level+1)
+	sentinel := false
+	n := 0
+	for _, ret := range returnsOf(h) {
+		if res.Len() == 2 && !mayBeNilError(ret.Results[1], ret.Block(), 0) {
+			continue
+		}
+		rv := ret.Results[0]
+		if k, isK := intConst(rv); isK && k < 0 {
+			sentinel = true
+			continue
+		}
+		n++
+		if okb, _ := hb(rv, rv, ret.Block(), upperInclusive); !okb {
+			return false
+		}
+	}
+	if n == 0 {
+		return false
+	}
+	if !sentinel {
+		return true
+	}
+	// the negative result is excluded at the use
+	for _, f := range impliedConds(at) {
+		bo, ok := f.Cond.(*ssa.BinOp)
+		if !ok || bo.X != result {
+			continue
+		}
+		k, isK := intConst(bo.Y)
+		if !isK {
+			continue
+		}
+		switch {
+		case bo.Op == token.LSS && k == 0 && !f.Truth, bo.Op == token.GEQ && k == 0 && f.Truth, bo.Op == token.GTR && k == -1 && f.Truth, bo.Op == token.LEQ && k == -1 && !f.Truth:
+			return true
+		}
+	}
+	return false
 }
